@@ -1,8 +1,8 @@
 SPECIFICATION Spec
 CONSTANTS MaxRules = 2
           MaxPat = 2
-          MaxCat = 2
-          TypedSet = {"", "debug"}
+          MaxCat = 3
+          TypedSet = {"", "debug", "critical"}
 INVARIANT Agree
 INVARIANT NoRuleMeansPass
 INVARIANT GlobAlgebra
